@@ -42,6 +42,8 @@ def cases(tier):
             yield ("matrix", libset, cmd)
     for mi in range(len(c11.MODELS)):
         yield ("faults", mi)
+    for name in sorted(SIG.EEMS2):
+        yield ("v2matrix", name)
     for si in range(len(c10.STRUCT)):
         yield ("corrupt", "struct", si)
     for mi in range(len(c11.MODELS)):
@@ -218,6 +220,30 @@ def run(case):
     if kind == "matrix":
         _, libset, cmd = case
         n, distinct, sample = _run_texts(_matrix_texts(libset, cmd), libset, viols, outcomes, "matrix")
+    elif kind == "v2matrix":
+        name = case[1]
+        target = SIG.EEMS2[name] or "Sum"
+        texts = []
+        if target == "EEMSRead":
+            base = [("InFileName", ("q", "input.csv")), ("InFieldName", ("bare", "A"))]
+        else:
+            base = [a for a in c12._baseline(target, "csv")]
+        pnames = sorted({a[0] for a in base} | {"InFieldName", "NewFieldName", "OutFileName"})
+        for pname in pnames:
+            for rk in c12.RAW_KINDS:
+                if rk in ("extra",):
+                    continue
+                args = [a for a in base if a[0] != pname]
+                if rk != "missing":
+                    args = args + [(pname, c12._raw(rk))]
+                for with_new in (False, True):
+                    a2 = args + ([("NewFieldName", ("bare", "Res"))] if with_new and pname != "NewFieldName" else [])
+                    pre = [(None, "READ", [("InFileName", ("q", "input.csv")), ("InFieldName", ("bare", "A"))]),
+                           (None, "READ", [("InFileName", ("q", "input.csv")), ("InFieldName", ("bare", "B"))]),
+                           (None, "CVTTOFUZZY", [("InFieldName", ("bare", "A")), ("NewFieldName", ("bare", "AF"))]),
+                           (None, "CVTTOFUZZY", [("InFieldName", ("bare", "B")), ("NewFieldName", ("bare", "BF"))])]
+                    texts.append(("%s.%s<-%s%s" % (name, pname, rk, "+NewFieldName" if with_new else ""), G.render(G.items_of(pre + [(None, name, a2)]))[0]))
+        n, distinct, sample = _run_texts(texts, "csv", viols, outcomes, "eems2-matrix")
     elif kind == "faults":
         model = c11.MODELS[case[1]]
         texts = [(f[0], G.render(G.items_of(f[1]))[0]) for f in c11._faults(model)]
